@@ -211,7 +211,8 @@ DEREF_FNS = ("deref", "as_str", "as_slice", "as_ref", "borrow", "deref_mut", "as
 class Analysis:
     """Runs the fixpoint for one body; afterwards `state_at_term[bi]` is the state just before block bi's terminator."""
 
-    def __init__(self, body, program, facts, len_alias=None, max_rounds=60, engine=None, invariants=None):
+    def __init__(self, body, program, facts, len_alias=None, max_rounds=60, engine=None, invariants=None, assume=None):
+        self.assume = assume or {}      # argument local -> constant value assumed at entry (bounded instantiation)
         self.engine = engine
         self.inv = invariants or {}
         self.b = body
@@ -1908,6 +1909,9 @@ class Analysis:
             if b.locals[l] in UNSIGNED:
                 name = self._register("_%d" % l, l, "_%d" % l, set(), True)
                 entry.add(ZERO, name, 0)
+        for l, v in self.assume.items():
+            nm = self._register("_%d" % l, l, "_%d" % l, set(), b.locals[l] in UNSIGNED)
+            entry.assign(nm, ZERO, v)
         self.inv_roots = self._inv_roots()
         own = self.P.direct.get(b.path, {}) if self.P is not None else {}
         self.is_inv_writer = any((adt, f) in own for adt, specs in self.inv.items() for sp in specs for f in (sp[0], sp[2]))
